@@ -262,7 +262,7 @@ def classify_all(ra, rb) -> list:
             out.append(c)
     for j, db in enumerate(only_b):
         if j not in used_b:
-            c = (db[0], "content", msg_class(None, db), None, db)
+            c = (db[0], "content", "diagnostic present in only one of the runs", None, db)
             if suffix_of(c) not in seen:
                 seen.add(suffix_of(c))
                 out.append(c)
@@ -277,7 +277,7 @@ def classify(ra, rb):
 
 def _classify_pair(da, db):
     if db is None:
-        return da[0], "content", msg_class(da, None), da, None
+        return da[0], "content", "diagnostic present in only one of the runs", da, None
     ma, mb = str(da[3]), str(db[3])
     if _ADDR_RE.sub("0xADDR", ma) == _ADDR_RE.sub("0xADDR", mb):
         m = _ADDR_RE.search(ma)
